@@ -81,11 +81,83 @@ fn records(out: &[u8]) -> Vec<&[u8]> {
     split_lines(out)
 }
 
-pub fn check(_sub: &str, _cfg: &'static dyn Config, input: &Input, rec: &mut Rec) -> Verdict {
+/// What the tool must print for a stream, predicted WITHOUT the library: sentence shape and checksum by
+/// the recogniser, sequencing by the reassembly model, decodability by the reference layouts. None if some
+/// line's outcome is not pinned by the models (then only the library-based comparison applies).
+fn model_prediction(bytes: &[u8]) -> Option<(usize, usize)> {
+    use crate::props::hist::{gate, Gate};
+    use crate::refmodel::layout::{refdecode, RefMsg};
+    use crate::refmodel::seq::{Model, Pred, Seen};
+    let mut model = Model::new();
+    let (mut out, mut err) = (0usize, 0usize);
+    for l in split_lines(bytes) {
+        match gate(l) {
+            Gate::Malformed(_) | Gate::BadChecksum(_) => err += 1,
+            Gate::StarInField(_) => return None,
+            Gate::Pass(f) => {
+                let pred = model.predict(f.num_fragments, f.fragment_number, f.message_id, &f.payload);
+                let (seen, data): (Seen, Option<Vec<u8>>) = match &pred {
+                    Pred::Single => (Seen::Complete, Some(f.payload.clone())),
+                    Pred::Deliver(d) => (Seen::Complete, Some(d.clone())),
+                    Pred::Open | Pred::Continue => (Seen::Incomplete, None),
+                    Pred::Reject(_) => {
+                        err += 1;
+                        (Seen::Rejected, None)
+                    }
+                    Pred::Unspecified(_) => return None,
+                };
+                if let Some(d) = data {
+                    // the tool always decodes: a payload that does not decode is a rejected line
+                    match armor::unarmor(&d, f.fill as usize) {
+                        None => err += 1,
+                        Some(b) => match refdecode(&b) {
+                            RefMsg::Msg(m) if m.must_be_ok => out += 1,
+                            RefMsg::Unsupported(_) | RefMsg::TooShort { .. } => err += 1,
+                            _ => return None,
+                        },
+                    }
+                }
+                model.commit(&pred, f.num_fragments, f.fragment_number, f.message_id, &f.payload, seen);
+            }
+        }
+    }
+    Some((out, err))
+}
+
+fn check_model_predicted(bytes: &[u8], rec: &mut Rec) -> Verdict {
+    let (want_out, want_err) = match model_prediction(bytes) {
+        Some(x) => x,
+        None => return Verdict::Excluded("a line's outcome is not pinned by the reference models"),
+    };
+    rec.nontrivial = want_out > 0;
+    rec.class("predicted-by-the-reference-models");
+    let r = run_cli(bytes);
+    rec.evals += 1;
+    let tail = |v: &[u8]| crate::util::clip(&esc(&v[v.len().saturating_sub(300)..]), 400);
+    if r.signal || r.status != Some(0) {
+        return Verdict::fail("exit status 0 at end of input", format!("exit {:?}; stderr tail: {}", r.status, tail(&r.stderr)));
+    }
+    let (got_out, got_err) = (records(&r.stdout).len(), records(&r.stderr).len());
+    if rec.want_note {
+        rec.note = Some(format!("reference models predict {} stdout / {} stderr record(s); the tool printed {} / {}", want_out, want_err, got_out, got_err));
+    }
+    if got_out != want_out {
+        return Verdict::fail(format!("{} record(s) on stdout: one per line that completes a decodable message, as the reference models (not the library) predict", want_out), format!("{} record(s); stdout tail: {}", got_out, tail(&r.stdout)));
+    }
+    if got_err != want_err {
+        return Verdict::fail(format!("{} record(s) on stderr: one per rejected line, as the reference models predict", want_err), format!("{} record(s); stderr tail: {}", got_err, tail(&r.stderr)));
+    }
+    Verdict::Pass
+}
+
+pub fn check(sub: &str, _cfg: &'static dyn Config, input: &Input, rec: &mut Rec) -> Verdict {
     let bytes = match input {
         Input::Stream { bytes } => bytes,
         _ => infra_error("C20 expects a stream"),
     };
+    if sub == "model-predicted-streams" {
+        return check_model_predicted(bytes, rec);
+    }
     // prediction: the library (std build), line by line, on one parser
     let lines = split_lines(bytes);
     let mut p = STD.new_parser();
@@ -310,7 +382,7 @@ fn streams() -> impl Strategy<Value = Input> {
 pub fn run(ctx: &mut Ctx) {
     ctx.rule = "process-level differential: byte streams of 0..60 lines assembled from identifiable valid sentences (unique MMSI), fully randomised well-formed sentences, complete and broken fragment groups, malformed lines, bad checksums, empty lines, CR LF endings, bytes >= 0x80 and NULs both in rejected lines and inside accepted ones (tag block, channel, after the checksum), with or without a final newline, and the empty stream, are piped into target/cli/debug/aisparser (built from /repo) and, line by line, into an in-process std parser. Required: exit status 0; one stdout record per line that completes a message, the i-th containing the Debug rendering of the i-th completed message; one stderr record per rejected line; nothing for incomplete fragments. Non-trivial = the stream has a line that is not valid UTF-8 or a completed fragment group; distinct by the stream bytes.".into();
     ctx.assumptions = vec![
-        "the library (std build), not the tool, predicts per-line outcomes: the tool is what is under test here".into(),
+        "sub-check generated-streams: the library (std build), not the tool, predicts per-line outcomes - the tool is what is under test; sub-check model-predicted-streams: shape, checksum, sequencing and decodability are predicted by the reference models alone, for the streams where they pin every line".into(),
         "the echo format of the offending line is not asserted".into(),
         "I/O errors on stdin and a closed stdout are environment faults, not line content; not tested".into(),
     ];
@@ -324,4 +396,7 @@ pub fn run(ctx: &mut Ctx) {
     }
     let n = ctx.tier.pick(2_000, 20_000);
     ctx.run_proptest_serial("generated-streams", &STD, n, streams(), check);
+    // the same kind of streams judged against the reference models instead of the library (a defect of the
+    // library that the tool merely passes on is invisible to the comparison above)
+    ctx.run_proptest_serial("model-predicted-streams", &STD, n, streams(), check);
 }
